@@ -81,20 +81,28 @@ def run(ctx):
     ctx.floor("C02.OFFSET", n_sites, 1, "unit sites in parser._parse")
     cfg = ctx.cfg(pp)
     facts = ctx.facts(pp)
-    sig = [n for n in cfg.live_nodes() if n.kind == "stmt" and isinstance(n.ast, ast.Assign) and src(n.ast.targets[0]) == "signal"]
-    ok = False
-    if len(sig) == 1 and isinstance(sig[0].ast.value, ast.Subscript) and isinstance(sig[0].ast.value.value, ast.Tuple):
-        tup = [src(e) for e in sig[0].ast.value.value.elts]
-        idx = src(sig[0].ast.value.slice).replace(" ", "")
-        ok = tup == ["-1", "1"] and idx == "l[i]=='+'"
-    ctx.ob("C02.OFFSET", pp, "'+' maps to +1 and '-' to -1 at the numeric offset", ok, construct="signal = %s" % (src(sig[0].ast.value) if sig else "?"), analysis="CMP sign table")
-    inv = [n for n in cfg.live_nodes() if n.kind == "stmt" and isinstance(n.ast, ast.Assign) and src(n.ast.targets[0]).replace(" ", "") == "l[i+1]"]
-    oki = False
-    if len(inv) == 1 and isinstance(inv[0].ast.value, ast.Subscript) and isinstance(inv[0].ast.value.value, ast.Tuple):
-        tup = [src(e) for e in inv[0].ast.value.value.elts]
-        idx = src(inv[0].ast.value.slice).replace(" ", "")
-        oki = tup == ["'+'", "'-'"] and idx == "l[i+1]=='+'"
-    ctx.ob("C02.OFFSET", pp, "'GMT+3' means three hours behind: the sign token after a zone name is inverted ('+' -> '-')", oki, construct="sign inversion after a zone name", analysis="CMP sign table")
+    from ..rules_common import sign_cases
+    cases, n_s = sign_cases(ctx, "C02.OFFSET", pp, lambda ef: ef[0] == "store" and ef[1].endswith(".tzoffset") and not isinstance(ef[2], ast.Constant), lambda ef: ef[2])
+    got = set((c, s_) for _, c, s_ in cases)
+    ok = got == {("plus", "+1"), ("minus", "-1")} and n_s == 1
+    ctx.ob("C02.OFFSET", pp, "'+' maps to +1 and '-' to -1 at the numeric offset", ok, construct="numeric offset sign", detail="" if ok else "sign of the stored offset per sign character: %s" % sorted(got),
+           analysis="guarded normal form of the sign region + polynomial sign")
+    # the sign token after a zone name is inverted in place
+    inv = [n for n in cfg.live_nodes() if n.kind == "stmt" and isinstance(n.ast, ast.Assign) and isinstance(n.ast.targets[0], ast.Subscript)
+           and isinstance(n.ast.value, ast.Constant) and n.ast.value.value in ("+", "-")]
+    tab = set()
+    for n in inv:
+        tgt = src(n.ast.targets[0])
+        fs = facts.at(n)
+        if (tgt + " == '+'", True) in fs:
+            tab.add(("plus", n.ast.value.value))
+        elif (tgt + " == '+'", False) in fs or (tgt + " == '-'", True) in fs:
+            tab.add(("minus", n.ast.value.value))
+        else:
+            tab.add(("?", n.ast.value.value))
+    oki = tab == {("plus", "-"), ("minus", "+")}
+    ctx.ob("C02.OFFSET", pp, "'GMT+3' means three hours behind: the sign token after a zone name is inverted ('+' -> '-', '-' -> '+')", oki, construct="sign inversion after a zone name",
+           detail="" if oki else str(sorted(tab)), analysis="must-hold branch facts at the in-place sign rewrite")
     clr = [n for n in cfg.live_nodes() if n.kind == "stmt" and src(n.ast) == "res.tzoffset = None"]
     ctx.ob("C02.OFFSET", pp, "... and the name's own offset is cleared so the numeric one applies", len(clr) == 1 and bool(inv) and cfg.path_avoiding(inv[0], clr, avoid_nodes=[]) is not None,
            construct="res.tzoffset = None after inversion")
